@@ -17,14 +17,14 @@ ASSUMPTIONS = ["subset selections are Dimension objects with a fresh letter (rep
 OUTSIDE = ["more than 5 dimensions", "FlodymArray right-hand sides under list selectors (partially addressed dimension keeps its full-length letter)",
            "items_where on arrays with more than 6 entries (one fork per entry)"]
 BOUNDS = {
-    "quick": dict(arrays="1-3 dims, lengths (3) (2,3) (3,2) (2,2) (2,2,2) (2,3,2) (1,2,3)", selectors="none / single item / subset Dimension (every ordered non-empty subset) / list (writes)",
+    "quick": dict(arrays="1-3 dims, lengths (3) (2,3) (3,2) (2,2) (2,2,2) (2,3,2) (1,2,3) (4) (5) (4,2) and one 5-d array (2,2,2,2,2) with single selections of the last item only", selectors="none / single item / subset Dimension (every ordered non-empty subset) / list (writes)",
                   spellings="dict by letter, dict by name, bare item, tuple (both orders), ellipsis", items_where_entries="<= 6"),
     "thorough": dict(arrays="quick + (3,3) (3,3,2) (2,2,2,2) (2,1,2,2,2) (2,2,2,2,2)", selectors="as quick; 5-dim arrays with subsets of <=2 items", spellings="as quick"),
 }
 OPTS = {"quick": dict(shadow_every=60, max_paths=300), "thorough": dict(shadow_every=400, max_paths=300)}
 
-SHAPES_Q = ["a3", "a2b3", "a3b2", "b2a2", "a2b2c2", "c2a3b2", "a1b2c3"]
-SHAPES_T = SHAPES_Q + ["a3b3", "b3a3c2", "a2b2c2d2", "a2b1c2d2e2", "a2b2c2d2e2"]
+SHAPES_Q = ["a3", "a2b3", "a3b2", "b2a2", "a2b2c2", "c2a3b2", "a1b2c3", "a4", "a5", "a4b2", "a2b2c2d2e2"]
+SHAPES_T = SHAPES_Q + ["a3b3", "b3a3c2", "a2b2c2d2", "a2b1c2d2e2", "a3b2c2d2e3", "b5a2"]
 
 
 def _parse(shape):
@@ -39,6 +39,8 @@ def configs(tier, seed):
         xd, lens = _parse(shape)
         big = len(xd) >= 4
         for sel in selector_tuples(xd, lens, ("none", "item", "sub"), sub_limit=2 if big else None, max_sub_dims=2 if big else None):
+            if len(xd) >= 5 and tier == "quick" and any(s[0] == "item" and s[1] != lens[l] - 1 for l, s in zip(xd, sel)):
+                continue  # 5-d arrays in the quick tier: single selections of the last item only
             for sp in spellings(sel):
                 if big and sp == "dictn":
                     continue
@@ -47,6 +49,8 @@ def configs(tier, seed):
         wl = 2 if (big or len(xd) == 3) else None
         for sel in selector_tuples(xd, lens, ("none", "item", "sub", "list"), sub_limit=wl, max_sub_dims=2):
             if len(xd) >= 3 and sum(1 for s in sel if s[0] == "none") == 0 and tier == "quick" and sum(1 for s in sel if s[0] != "item") > 1:
+                continue
+            if len(xd) >= 5 and tier == "quick" and (any(s[0] == "item" and s[1] != lens[l] - 1 for l, s in zip(xd, sel)) or sum(1 for s in sel if s[0] in ("sub", "list")) > 1):
                 continue
             for rhs in ("number", "ndarray"):
                 sp = "dictl"
